@@ -5,9 +5,11 @@ import (
 	"flag"
 	"fmt"
 	"os"
+	"runtime/debug"
 	"strconv"
 	"strings"
 	"sync"
+	_ "time/tzdata" // the drivers also run under other process time zones (TZ), see lib/vf.py
 )
 
 // ops maps an operation name to the function that performs it on the real code. The
@@ -29,6 +31,7 @@ type Drv struct {
 	// Limit bounds the events of one goroutine in concurrent mode.
 	Limit  int
 	nparse int
+	ncall  int
 }
 
 func (d *Drv) Thorough() bool  { return d.Tier == "thorough" }
@@ -63,7 +66,8 @@ func (d *Drv) Do(req Ev) Ev {
 			req["T"] = strings.ToUpper(T)
 		}
 	}
-	if str(req["op"]) == "giant" {
+	op := str(req["op"])
+	if op == "giant" {
 		if concMode {
 			return req // sets the package limit around its call: not for concurrent use
 		}
@@ -71,9 +75,74 @@ func (d *Drv) Do(req Ev) Ev {
 		d.S.Intent(req)
 		defer d.S.IntentDone()
 	}
+	// A panic that escapes an operation ends this process; when it comes out of the library (and not
+	// out of the harness's own code) the request is left behind like that of a dying process.
+	defer func() {
+		if r := recover(); r != nil {
+			if _, ok := r.(stopDriver); ok {
+				panic(r)
+			}
+			stack := string(debug.Stack())
+			where := panicOrigin(stack)
+			if strings.Contains(where, "go.lstv.dev/util") {
+				intentMu.Lock() // one goroutine reports, the process exits
+				d.S.Intent(req)
+				fmt.Fprintf(os.Stderr, "panic: %v [in %s, operation %s]\n", r, where, op)
+				os.Exit(3)
+			}
+			fatal("panic in the harness's own code (%s) during %s: %v\n%s", where, op, r, stack)
+		}
+	}()
 	e := Exec(req)
 	d.S.Emit(e)
+	// the same call once more, directly afterwards (every 7th stateless call): a call must not
+	// depend on having been made before
+	d.ncall++
+	if d.ncall%7 == 3 && repeatable(op, req) {
+		again := Ev{}
+		for k, v := range req {
+			again[k] = v
+		}
+		if _, ok := again["chain"]; ok {
+			again["chain"] = 0 // the repetition is not the successor of the previous point of a chain
+		}
+		d.S.Emit(Exec(again))
+	}
 	return e
+}
+
+var intentMu sync.Mutex
+
+// panicOrigin names the function that panicked: the first frame after the runtime's panic frames.
+func panicOrigin(stack string) string {
+	lines := strings.Split(stack, "\n")
+	seenPanic := false
+	for i := 0; i+1 < len(lines); i++ {
+		l := lines[i]
+		if strings.HasPrefix(l, "panic(") || strings.HasPrefix(l, "runtime.") {
+			if strings.HasPrefix(l, "panic(") {
+				seenPanic = true
+			}
+			continue
+		}
+		if seenPanic && !strings.HasPrefix(l, "\t") && !strings.HasPrefix(l, "goroutine ") && l != "" {
+			return l
+		}
+	}
+	return "unknown"
+}
+
+// repeatable: operations whose request carries everything they depend on (no harness-side state).
+func repeatable(op string, req Ev) bool {
+	if _, stateful := req["st"]; stateful {
+		return false
+	}
+	for _, p := range []string{"date.f", "date.vars", "ovr.", "util.", "giant", "r."} {
+		if strings.HasPrefix(op, p) {
+			return false
+		}
+	}
+	return !strings.HasSuffix(op, ".set") && !strings.HasSuffix(op, ".univ") && !strings.HasSuffix(op, ".reset")
 }
 
 // concMode: several drivers run as goroutines of this process (harness conc ...).
